@@ -14,6 +14,7 @@ import (
 	"fmt"
 	"go/scanner"
 	"go/types"
+	"iter"
 	"os"
 	"path/filepath"
 	"runtime/debug"
@@ -32,11 +33,11 @@ func init() { core.Children["c01-child"] = childMain }
 // ---- input ----
 
 type Snip struct {
-	K   string   `json:"k"`             // nil | block | comment | directive | snippets | id | expose | t | sprintf
+	K   string   `json:"k"`             // nil | block | comment | directive | snippets | id | expose | t | sprintf | lazy | render (member of lazy)
 	S   []byte   `json:"s,omitempty"`   // text: block / comment / directive name / id reference / expose path / format
 	Q   string   `json:"q,omitempty"`   // the same text Go-quoted, for readers only
-	A   []string `json:"a,omitempty"`   // directive arguments; expose: [name]
-	Sub []Snip   `json:"sub,omitempty"` // members (snippets); arguments a0,a1,… (t); positional arguments (sprintf)
+	A   []string `json:"a,omitempty"`   // directive arguments; expose: [name]; lazy: [form] (snippets | func); render: [once-key] ("" = every time)
+	Sub []Snip   `json:"sub,omitempty"` // members (snippets, lazy); arguments a0,a1,… (t); positional arguments (sprintf); render: the snippets of the nested Render calls
 }
 
 type Gen struct {
@@ -126,8 +127,70 @@ type ChildOut struct {
 	GoVers  []string `json:"go_vers,omitempty"` // go directive of each module's go.mod AFTER the run (the go command may raise it)
 }
 
-func toSnippet(s Snip) snippet.Snippet {
+// renv: what a lazily evaluated snippet needs for its NESTED Render calls - the writer that is rendering it (the
+// generator's Context, or the harness's shadow writer) and that writer's "helper already created" keys
+type renv struct {
+	w    interface{ Render(snippet.Snippet) }
+	once map[string]bool
+}
+
+func toSnippet(s Snip) snippet.Snippet { return toSnippetW(s, nil) }
+
+// lazy: a sequence that is evaluated while the writer iterates it.  A member of kind "render" yields nothing: at that
+// point of the iteration it calls Render on the SAME writer for each of its snippets (the bundled generators'
+// createHelperOnce idiom, called from inside a snippet: a method is emitted, the shared helper it needs is created the
+// moment it is first needed, the registration follows).  With a once-key the nested calls are made only the first time
+// the key is met by this generator instance.  Form "snippets": snippet.Snippets; form "func": snippet.Func.
+func lazySnippet(s Snip, env *renv) snippet.Snippet {
+	if env == nil {
+		panic("c01: lazy snippet outside a writer")
+	}
+	members := s.Sub
+	nested := func(m Snip) {
+		if len(m.A) > 0 && m.A[0] != "" {
+			if env.once[m.A[0]] {
+				return
+			}
+			env.once[m.A[0]] = true
+		}
+		for _, x := range m.Sub {
+			env.w.Render(toSnippetW(x, env))
+		}
+	}
+	if len(s.A) > 0 && s.A[0] == "func" {
+		return snippet.Func(func(ctx context.Context) iter.Seq[string] {
+			return func(yield func(string) bool) {
+				for _, m := range members {
+					if m.K == "render" {
+						nested(m)
+						continue
+					}
+					for f := range snippet.Fragments(ctx, toSnippetW(m, env)) {
+						if !yield(f) {
+							return
+						}
+					}
+				}
+			}
+		})
+	}
+	return snippet.Snippets(func(yield func(snippet.Snippet) bool) {
+		for _, m := range members {
+			if m.K == "render" {
+				nested(m)
+				continue
+			}
+			if !yield(toSnippetW(m, env)) {
+				return
+			}
+		}
+	})
+}
+
+func toSnippetW(s Snip, env *renv) snippet.Snippet {
 	switch s.K {
+	case "lazy":
+		return lazySnippet(s, env)
 	case "nil":
 		return nil
 	case "block":
@@ -140,7 +203,7 @@ func toSnippet(s Snip) snippet.Snippet {
 		subs := s.Sub
 		return snippet.Snippets(func(yield func(snippet.Snippet) bool) {
 			for _, x := range subs {
-				if !yield(toSnippet(x)) {
+				if !yield(toSnippetW(x, env)) {
 					return
 				}
 			}
@@ -182,12 +245,14 @@ type recorder struct {
 	w       *recWriter
 	sw      gengo.SnippetWriter
 	tracker namer.ImportTracker
+	once    map[string]bool // once-keys of nested Render calls met by the shadow rendering
 }
 
 type scripted struct {
 	script *Gen
 	recs   map[string]*recorder // by package path; shared by all instances of this generator
 	rec    *recorder
+	once   map[string]bool // once-keys of nested Render calls met by this instance (one instance per package)
 }
 
 func (g *scripted) Name() string { return g.script.Name }
@@ -196,18 +261,19 @@ func (g *scripted) New(c gengo.Context) gengo.Generator {
 	pkgPath := c.Package("").Pkg().Path()
 	tr := namer.NewDefaultImportTracker()
 	w := &recWriter{}
-	r := &recorder{w: w, tracker: tr,
+	r := &recorder{w: w, tracker: tr, once: map[string]bool{},
 		sw: gengo.NewSnippetWriter(w, namer.NameSystems{"raw": namer.NewRawNamer(pkgPath, tr)})}
 	g.recs[pkgPath] = r
-	return &scripted{script: g.script, recs: g.recs, rec: r}
+	return &scripted{script: g.script, recs: g.recs, rec: r, once: map[string]bool{}}
 }
 
 func (g *scripted) render(c gengo.Context, s Snip) {
-	sn := toSnippet(s)
+	sn := toSnippetW(s, &renv{w: c, once: g.once})
 	c.Render(sn)
-	// the shadow copy (fresh snippet value: iterators are re-run, nothing is shared with the first rendering)
+	// the shadow copy (fresh snippet value: iterators are re-run, nothing is shared with the first rendering; nested
+	// Render calls of a lazy snippet go to the shadow writer and land in the same record, in write order)
 	g.rec.w.cur = [][]byte{}
-	g.rec.sw.Render(toSnippet(s))
+	g.rec.sw.Render(toSnippetW(s, &renv{w: g.rec.sw, once: g.rec.once}))
 	g.rec.renders = append(g.rec.renders, g.rec.w.cur)
 }
 
